@@ -73,7 +73,7 @@ func drawRectPoint(t *rapid.T, r RectJ, R int64) P {
 }
 
 func drawC06(t *rapid.T) *C06Case {
-	R := rapid.SampledFrom([]int64{20, 1000, 1000000, 1 << 27}).Draw(t, "R")
+	R := rapid.SampledFrom([]int64{20, 1000, 1000000, 1 << 27, 1 << 33, 1 << 40}).Draw(t, "R") // no magnitude limit in the statement; int64 products wrap from 2^31.5 on
 	c := &C06Case{Rect: drawRect(t, R)}
 	np := rapid.IntRange(1, 3).Draw(t, "nPaths")
 	for i := 0; i < np; i++ {
